@@ -89,6 +89,7 @@ void harness(void)
   blast();
   V_ASSERT(m_lonedot, "C06: the payload ends with the end-of-data line");
   V_ASSERT(g_flushed, "C06: the end-of-data line is flushed to the peer");
+  V_ASSERT(flagcritical == 1, "C09: blast returns with the critical flag still raised (it is cleared only after the server's reply was read)");
   V_ASSERT(g_eof && (g_saw_cr || (!g_pend && !g_midline)), "C06: blast returns only after the whole message was read and sent");
   V_COVER(g_saw_cr);
   V_COVER(!g_saw_cr);
